@@ -738,6 +738,15 @@ def method_evaluator(prog, mod, cls, fn, roles, assume=None):
         else:
             env[p] = Poly.name(r)
 
+    numeric = {k: v for k, v in (assume or {}).items()
+               if v is not mono.ELSE and isinstance(v, (int, float)) and not isinstance(v, bool)}
+
+    def attr_leaf(node):
+        # an instance attribute assumed to have a numeric value on this path is that value
+        if isinstance(node, ast.Attribute) and pf.src(node) in numeric:
+            return mono.num_const(numeric[pf.src(node)])
+        return None
+
     def call_hook(node, ev, _depth=[0]):
         f = node.func
         if isinstance(f, ast.Attribute) and isinstance(f.value, ast.Name) and f.value.id == "self":
@@ -753,7 +762,8 @@ def method_evaluator(prog, mod, cls, fn, roles, assume=None):
             for kw in node.keywords:
                 if kw.arg in names:
                     cenv[kw.arg] = ev._safe(lambda kw=kw: ev.ev(kw.value))
-            sub = Evaluator(env=cenv, assume=ev.assume, leaf=None, call=call_hook, module_consts=ev.module_consts)
+            sub = Evaluator(env=cenv, assume=ev.assume, leaf=attr_leaf, call=call_hook, module_consts=ev.module_consts)
+            sub.elementwise_index = ev.elementwise_index
             _depth[0] += 1
             try:
                 v = sub.run_function(callee)
@@ -769,7 +779,8 @@ def method_evaluator(prog, mod, cls, fn, roles, assume=None):
             for kw in node.keywords:
                 if kw.arg in names:
                     cenv[kw.arg] = ev._safe(lambda kw=kw: ev.ev(kw.value))
-            sub = Evaluator(env=cenv, assume=ev.assume, leaf=None, call=call_hook, module_consts=ev.module_consts)
+            sub = Evaluator(env=cenv, assume=ev.assume, leaf=attr_leaf, call=call_hook, module_consts=ev.module_consts)
+            sub.elementwise_index = ev.elementwise_index
             _depth[0] += 1
             try:
                 return sub.run_function(callee)
@@ -777,7 +788,7 @@ def method_evaluator(prog, mod, cls, fn, roles, assume=None):
                 _depth[0] -= 1
         return None
 
-    return Evaluator(env=env, assume=assume, call=call_hook, module_consts=mod.assigns)
+    return Evaluator(env=env, assume=assume, leaf=attr_leaf, call=call_hook, module_consts=mod.assigns)
 
 
 def split_linear(p, atoms, what):
@@ -795,10 +806,68 @@ def split_linear(p, atoms, what):
     return out
 
 
+def attribute_guard_paths(prog, mod, cls, fns):
+    """Outcomes of the guards `self.<attr> <op> <number>` in the given routines (helpers inlined):
+    list of assumption dicts {'self.attr': number | ELSE}; [{}] when there is no such guard."""
+    import itertools
+    values = {}
+    ordered = set()
+    for fn in fns:
+        fi = hinline.inline_helpers(fn, hinline.class_resolver(prog, mod, cls))
+        for n in pf.walk_no_nested(fi):
+            if isinstance(n, (ast.If, ast.IfExp, ast.While)):
+                for c in ast.walk(n.test):
+                    if isinstance(c, ast.Compare) and len(c.ops) == 1 and pf.is_self_attr(c.left) \
+                            and _lit(c.comparators[0]) is not None:
+                        v = _lit(c.comparators[0])
+                        values.setdefault(pf.src(c.left), set()).add(int(v) if float(v).is_integer() else v)
+                        if isinstance(c.ops[0], (ast.Lt, ast.LtE, ast.Gt, ast.GtE)):
+                            ordered.add(pf.src(c.left))
+    if not values:
+        return [{}]
+    keys = sorted(values)
+    opts = []
+    for k in keys:
+        vs = sorted(values[k])
+        if k in ordered and len(vs) == 1:
+            opts.append(vs + [("lt", vs[0]), ("gt", vs[0])])  # below / at / above the bound
+        else:
+            opts.append(vs + [mono.ELSE])
+    paths = [dict(zip(keys, combo)) for combo in itertools.product(*opts)]
+    if len(paths) > 32:
+        raise core.AnalysisError("%s: %d guard outcomes on instance attributes, too many to enumerate" % (cls.name, len(paths)))
+    return paths
+
+
+def path_text(path):
+    if not path:
+        return ""
+    def one(v):
+        if v is mono.ELSE:
+            return "is any other value"
+        if isinstance(v, tuple):
+            return "%s %s" % ("<" if v[0] == "lt" else ">", v[1])
+        return "== %s" % v
+    return " [" + ", ".join("%s %s" % (k, one(v)) for k, v in sorted(path.items())) + "]"
+
+
 def rule_normalizers(chk, prog):
     mod, classes = normalizer_classes(prog)
     for cls in classes:
+        fns = []
+        for nm in ("fill_fwd", "fill_bwd", "get_normed_feature_deriv"):
+            r = prog.find_method(mod, cls, nm)
+            if r is None or r[1].name == "FeatNormalizer":
+                raise core.AnalysisError("%s does not implement %s" % (cls.name, nm))
+            fns.append(r[2])
+        for path in attribute_guard_paths(prog, mod, cls, fns):
+            _normalizer_on_path(chk, prog, mod, cls, path)
+
+
+def _normalizer_on_path(chk, prog, mod, cls, path):
+    if True:
         cname = cls.name
+        ptxt = path_text(path)
         ms = {}
         for nm in ("fill_fwd", "fill_bwd", "get_normed_feature_deriv"):
             r = prog.find_method(mod, cls, nm)
@@ -806,7 +875,7 @@ def rule_normalizers(chk, prog):
                 raise core.AnalysisError("%s does not implement %s" % (cname, nm))
             ms[nm] = r[2]
         # ---- fill_fwd
-        ev = method_evaluator(prog, mod, cls, ms["fill_fwd"], FWD_ROLES)
+        ev = method_evaluator(prog, mod, cls, ms["fill_fwd"], FWD_ROLES, path)
         ev.run_function(ms["fill_fwd"])
         fst = [s for s in ev.stores if isinstance(s.target, mono.Buf) and s.target.role == "xn"]
         K = None
@@ -823,7 +892,7 @@ def rule_normalizers(chk, prog):
         else:
             why_nc = "stores to xn: %r" % fst
         # ---- fill_bwd
-        ev = method_evaluator(prog, mod, cls, ms["fill_bwd"], BWD_ROLES)
+        ev = method_evaluator(prog, mod, cls, ms["fill_bwd"], BWD_ROLES, path)
         ev.run_function(ms["fill_bwd"])
         bw = {"dfdx": Poly(), "dfdrho": Poly(), "dfdinh": Poly()}
         bw_nc = None
@@ -858,7 +927,7 @@ def rule_normalizers(chk, prog):
             chk.violation("transpose", FN, cname + ".fill_bwd", "no store to dfdx", ms["fill_bwd"].lineno,
                           "fill_bwd never fills dfdx")
         # ---- get_normed_feature_deriv
-        ev = method_evaluator(prog, mod, cls, ms["get_normed_feature_deriv"], GNFD_ROLES)
+        ev = method_evaluator(prog, mod, cls, ms["get_normed_feature_deriv"], GNFD_ROLES, path)
         R = ev.run_function(ms["get_normed_feature_deriv"])
         # ---- compare
         pairs = (("DX", "dfdx"), ("DRHO", "dfdrho"), ("DINH", "dfdinh"))
@@ -873,36 +942,37 @@ def rule_normalizers(chk, prog):
                 bcoef[role] = split_linear(p, ["DFDXN"], "%s.fill_bwd store to %s" % (cname, role))["DFDXN"]
         except mono.NonLinear as e:
             chk.violation("transpose", FN, cname, "linearity", cls.lineno,
-                          "not linear in the differentials: %s" % e, instance="%s linearity" % cname)
-            continue
+                          "not linear in the differentials: %s" % e, instance="%s linearity%s" % (cname, ptxt))
+            return
         except NotComparable as e:
             chk.note("transpose", "%s:%s" % (FN, cname), "not comparable: %s" % e)
             chk.count("transpose not-comparable")
-            continue
+            return
         for d, role in pairs:
             a, b = fw[d], bcoef[role]
-            inst = "%s d(xn)/d%s: forward %s | reverse %s" % (cname, d[1:].lower(), mono.show(a)[:60], mono.show(b)[:60])
+            inst = "%s%s d(xn)/d%s: forward %s | reverse %s" % (cname, ptxt, d[1:].lower(), mono.show(a)[:60], mono.show(b)[:60])
             verdict = mono.definitely_different(a, b)
             if verdict == "equal":
                 chk.ok("transpose", inst, nontrivial=not a.is_zero())
             elif verdict == "different":
-                chk.violation("transpose", FN, cname, "coefficient of %s vs store to %s" % (d.lower(), role), cls.lineno,
+                chk.violation("transpose", FN, cname, "coefficient of %s vs store to %s%s" % (d.lower(), role, ptxt), cls.lineno,
+                              "on the path" + (ptxt or " without attribute guards") + ": "
                               "forward mode (get_normed_feature_deriv) multiplies %s by  %s  but reverse mode "
                               "(fill_bwd) adds dfdxn times  %s  to %s: the two are not transposes of each other" % (
-                                  d.lower(), mono.show(a), mono.show(b), role), instance="%s %s" % (cname, d))
+                                  d.lower(), mono.show(a), mono.show(b), role), instance="%s %s%s" % (cname, d, ptxt))
             else:
                 chk.note("transpose", "%s:%s" % (FN, cname), "coefficient of %s not comparable: %s vs %s" % (
                     d, mono.show(a), mono.show(b)))
                 chk.count("transpose not-comparable")
         if K is not None:
             verdict = mono.definitely_different(K, fw["DX"])
-            inst = "%s xn/x = %s vs d(xn)/dx = %s" % (cname, mono.show(K)[:60], mono.show(fw["DX"])[:60])
+            inst = "%s%s xn/x = %s vs d(xn)/dx = %s" % (cname, ptxt, mono.show(K)[:60], mono.show(fw["DX"])[:60])
             if verdict == "equal":
                 chk.ok("transpose", inst)
             elif verdict == "different":
-                chk.violation("transpose", FN, cname, "fill_fwd factor vs derivative w.r.t. x", cls.lineno,
+                chk.violation("transpose", FN, cname, "fill_fwd factor vs derivative w.r.t. x" + ptxt, cls.lineno,
                               "fill_fwd computes xn = x * (%s) but the derivative routines use d(xn)/dx = %s" % (
-                                  mono.show(K), mono.show(fw["DX"])), instance="%s fwd-x" % cname)
+                                  mono.show(K), mono.show(fw["DX"])), instance="%s fwd-x%s" % (cname, ptxt))
             else:
                 chk.count("transpose not-comparable")
         elif why_nc:
@@ -1445,6 +1515,13 @@ def mutants(tree):
           "        rho_term, inh_term = self._get_rho_and_inh(X0T)\n        dfdrho = np.zeros_like(rho_term)",
           "        if getattr(self, \"_sl\", None) is not None and self._sl[0] is X0T:\n            rho_term, inh_term = self._sl[1:]\n        else:\n            rho_term, inh_term = self._get_rho_and_inh(X0T)\n        self._sl = (X0T, rho_term, inh_term)\n        dfdrho = np.zeros_like(rho_term)",
           expect="stateless"),
+        M("forward mode drops the dinh term together with the (vanishing) drho term when power1 == 0", FN,
+          "        res += x * fac2 * fac1 * self.power1 / rho * drho\n        res += x * fac1 * self.power2 * self.const2 * inh ** (self.power2 - 1) * dinh\n",
+          "        if self.power1 != 0:\n            res += x * fac2 * fac1 * self.power1 / rho * drho\n            res += x * fac1 * self.power2 * self.const2 * inh ** (self.power2 - 1) * dinh\n",
+          expect="transpose"),
+        M("reverse mode skips the dfdrho accumulation unless power > 0 (wrong for negative powers)", FN,
+          "        dfdrho[:] += dfdxn * self.power * fac * x / rho\n",
+          "        if self.power > 0:\n            dfdrho[:] += dfdxn * self.power * fac * x / rho\n", expect="transpose"),
         M("fill_vals_ writes every map into row 0", TD, "self.feat_list[i].fill_feat_(tdesc[i], xdesc)",
           "self.feat_list[i].fill_feat_(tdesc[0], xdesc)", count=2, expect="list-iter"),
     ]
